@@ -26,10 +26,11 @@ class Form:
 class FForall(Form):
     """forall v1..vn (ints). fn(*consts) -> formula (range guards included via FImp)."""
 
-    def __init__(self, arity, fn, label=''):
+    def __init__(self, arity, fn, label='', bounds=None):
         self.arity = arity
         self.fn = fn
         self.label = label
+        self.bounds = bounds   # optional [(lo, hi)] per variable (for proof-by-cases on the last index)
 
 
 class FAnd(Form):
@@ -53,6 +54,7 @@ class FExists(Form):
 
 
 _fresh_counter = [0]
+SK_BOUNDS = {}
 
 
 def fresh(prefix, sort=None):
@@ -145,6 +147,9 @@ def to_goals(f, hyps=None):
         return to_goals(f.body, hyps + [zbool(f.cond)])
     if isinstance(f, FForall):
         cs = [fresh('sk') for _ in range(f.arity)]
+        if f.bounds:
+            for c, b in zip(cs, f.bounds):
+                SK_BOUNDS[c.get_id()] = (c, b[0], b[1])
         res = []
         for (h, g, sk) in to_goals(f.fn(*cs), hyps):
             res.append((h, g, cs + sk))
@@ -190,10 +195,54 @@ def _has_var(e):
     return False
 
 
+def _chain(arr):
+    """Arrays whose contents a select on arr may read: through Store / If chains."""
+    out = []
+    stack = [arr]
+    n = 0
+    while stack and n < 50:
+        a = stack.pop()
+        n += 1
+        out.append(a)
+        if z3.is_app(a):
+            k = a.decl().kind()
+            if k == z3.Z3_OP_STORE:
+                stack.append(a.arg(0))
+            elif k == z3.Z3_OP_ITE:
+                stack.append(a.arg(1))
+                stack.append(a.arg(2))
+    return out
+
+
+def free_consts(e, exclude=None):
+    """Uninterpreted constants of e (deterministic order), excluding numerals and `exclude`."""
+    out = []
+    seen = set()
+
+    def rec(t):
+        i = t.get_id()
+        if i in seen:
+            return
+        seen.add(i)
+        if z3.is_app(t):
+            if t.num_args() == 0:
+                if t.decl().kind() == z3.Z3_OP_UNINTERPRETED and not (exclude is not None and t.eq(exclude)):
+                    out.append(t)
+            else:
+                for c in t.children():
+                    rec(c)
+        elif z3.is_quantifier(t):
+            rec(t.body())
+    rec(e)
+    return out
+
+
 def collect(exprs):
-    """Return (index_tuples: dict arity -> set of tuples, apps: dict declname -> list of arg tuples)."""
+    """Return (index_tuples: dict arity -> {ids: tuple}, apps: dict declname -> {id: app},
+    sel_by_arr: dict array term id -> {ids: tuple})."""
     idx = {}
     apps = {}
+    by_arr = {}
     for e in _walk(exprs):
         if not z3.is_app(e):
             continue
@@ -201,15 +250,128 @@ def collect(exprs):
         if k == z3.Z3_OP_SELECT:
             args = e.children()[1:]
             if all(a.sort() == z3.IntSort() for a in args) and not any(_has_var(a) for a in args):
-                idx.setdefault(len(args), {})[tuple(a.get_id() for a in args)] = tuple(args)
+                key = tuple(a.get_id() for a in args)
+                idx.setdefault(len(args), {})[key] = tuple(args)
+                for a in _chain(e.arg(0)):
+                    by_arr.setdefault(a.get_id(), {})[key] = tuple(args)
         elif k == z3.Z3_OP_STORE:
             args = e.children()[1:-1]
             if all(a.sort() == z3.IntSort() for a in args) and not any(_has_var(a) for a in args):
-                idx.setdefault(len(args), {})[tuple(a.get_id() for a in args)] = tuple(args)
+                key = tuple(a.get_id() for a in args)
+                idx.setdefault(len(args), {})[key] = tuple(args)
+                for a in _chain(e.arg(0)):
+                    by_arr.setdefault(a.get_id(), {})[key] = tuple(args)
         elif k == z3.Z3_OP_UNINTERPRETED and e.num_args() > 0:
             if not any(_has_var(a) for a in e.children()):
                 apps.setdefault(e.decl().name(), {})[e.get_id()] = e
-    return idx, apps
+    return idx, apps, by_arr
+
+
+def infer_patterns(qf):
+    """Trigger inference: selects / uninterpreted applications in the body whose arguments are a quantified
+    variable (plus a constant offset). Returns list of (kind, key, [(pos, var, offset)])."""
+    if getattr(qf, '_pats', None) is not None:
+        return qf._pats
+    ds = [z3.Int('pat!%d' % k) for k in range(qf.arity)]
+    pats = []
+    try:
+        f = qf.fn(*ds)
+        parts, nested = [], []
+        to_facts(f, parts, nested)
+        for q in nested:
+            # nested quantifier: look one level down with its own dummies
+            es = [z3.Int('patn!%d' % k) for k in range(q.arity)]
+            try:
+                to_facts(q.fn(*es), parts, [])
+            except Exception:
+                pass
+    except Exception:
+        qf._pats = []
+        return qf._pats
+    seen = set()
+    for e in _walk(parts):
+        if not z3.is_app(e):
+            continue
+        k = e.decl().kind()
+        if k == z3.Z3_OP_SELECT:
+            args = e.children()[1:]
+            arrs = [a for a in _chain(e.arg(0))]
+            kind = 'sel'
+            keys = [a.get_id() for a in arrs if a.num_args() == 0 or a.decl().kind() != z3.Z3_OP_STORE]
+        elif k == z3.Z3_OP_UNINTERPRETED and e.num_args() > 0:
+            args = e.children()
+            kind = 'app'
+            keys = [e.decl().name()]
+        else:
+            continue
+        binds = []
+        for pos, a in enumerate(args):
+            if a.sort() != z3.IntSort():
+                continue
+            for vi, d in enumerate(ds):
+                if a.eq(d):
+                    binds.append((pos, vi, 0))
+                else:
+                    off = z3.simplify(a - d)
+                    if z3.is_int_value(off):
+                        binds.append((pos, vi, off.as_long()))
+        if binds:
+            for key in keys:
+                sig = (kind, key, tuple(binds))
+                if sig not in seen:
+                    seen.add(sig)
+                    pats.append((kind, key, binds))
+    qf._pats = pats
+    qf._keep = parts
+    return pats
+
+
+def match_patterns(qf, pats, idx, apps, by_arr, singles, cap=400, priority=None):
+    """Candidate argument tuples for a quantified fact from its inferred triggers."""
+    partial = {}   # frozenset of (var, term id) -> dict var->term
+    for (kind, key, binds) in pats:
+        if kind == 'sel':
+            occs = by_arr.get(key, {}).values()
+        else:
+            occs = [tuple(a.children()) for a in apps.get(key, {}).values()]
+        for args in occs:
+            b = {}
+            ok = True
+            for (pos, vi, off) in binds:
+                if pos >= len(args):
+                    ok = False
+                    break
+                t = args[pos] if off == 0 else z3.simplify(args[pos] - off)
+                if vi in b and not b[vi].eq(t):
+                    ok = False
+                    break
+                b[vi] = t
+            if ok and b:
+                partial[tuple(sorted((v, t.get_id()) for v, t in b.items()))] = b
+    if not partial:
+        return None
+    full = {}
+    per_var = {}
+    for b in partial.values():
+        if len(b) == qf.arity:
+            full[tuple(b[v].get_id() for v in range(qf.arity))] = tuple(b[v] for v in range(qf.arity))
+        for v, t in b.items():
+            per_var.setdefault(v, {})[t.get_id()] = t
+    if qf.arity > 1:
+        lists = []
+        per = max(2, int(round(cap ** (1.0 / qf.arity))))
+        prio = priority or {}
+        for v in range(qf.arity):
+            if v in per_var:
+                l = list(per_var[v].values())
+            else:
+                l = list(singles.values())
+            # terms of the goal (and skolems) first; truncate so that the product stays bounded
+            l.sort(key=lambda t: 0 if t.get_id() in prio else 1)
+            lists.append(l[:per])
+        for tup in itertools.product(*lists):
+            full[tuple(t.get_id() for t in tup)] = tup
+    return list(full.values())
 
 
 # --------------------------------------------------------------------------
@@ -297,7 +459,7 @@ def sum_pair_axiom(sf1, a1, sf2, a2):
 MAX_TUPLES = 400
 
 
-def instantiate(ground, qfacts, registry, rounds=2, hints=(), max_insts=6000):
+def instantiate(ground, qfacts, registry, rounds=2, hints=(), max_insts=6000, use_sums=True, goal=None):
     """ground: list of qf z3 Bool (hyps + negated goal). Returns list of added qf facts."""
     added = []
     seen_inst = set()
@@ -307,8 +469,15 @@ def instantiate(ground, qfacts, registry, rounds=2, hints=(), max_insts=6000):
     qfacts = list(qfacts)
     extra_terms = list(hints)
     work = list(ground)
+    priority = {t.get_id(): t for t in extra_terms}
+    if goal is not None:
+        gi, _, _ = collect([goal])
+        for d in gi.values():
+            for tup in d.values():
+                for t in tup:
+                    priority[t.get_id()] = t
     for rnd in range(rounds):
-        idx, apps = collect(work + added)
+        idx, apps, by_arr = collect(work + added)
         singles = {}
         for ar, d in idx.items():
             for tup in d.values():
@@ -319,14 +488,14 @@ def instantiate(ground, qfacts, registry, rounds=2, hints=(), max_insts=6000):
         new = []
         new_q = []
         # sums
-        for name, sf in registry.sums.items():
+        for name, sf in (registry.sums.items() if use_sums else ()):
             occ = apps.get(name, {})
             for aid, app in occ.items():
                 if aid in seen_sum:
                     continue
                 seen_sum.add(aid)
                 new.extend(sum_axioms(sf, app, extra_terms))
-        if rnd == 0 or True:
+        if use_sums:
             sum_occ = []
             for name, sf in registry.sums.items():
                 for aid, app in apps.get(name, {}).items():
@@ -337,7 +506,7 @@ def instantiate(ground, qfacts, registry, rounds=2, hints=(), max_insts=6000):
                     if key in seen_pairs:
                         continue
                     seen_pairs.add(key)
-                    if s1 is not s2:
+                    if True:
                         # only when the bounds are syntactically equal
                         c1, c2 = a1.children(), a2.children()
                         if not (z3.simplify(c1[0] - c2[0]).eq(z3.IntVal(0)) and
@@ -366,13 +535,23 @@ def instantiate(ground, qfacts, registry, rounds=2, hints=(), max_insts=6000):
         for qi, qfct in enumerate(qfacts):
             if qfct.trigger is not None:
                 cands = [tuple(a.children()) for a in apps.get(qfct.trigger, {}).values()]
-            elif qfct.arity == 1:
-                cands = [(t,) for t in singles.values()]
             else:
-                cands = list(idx.get(qfct.arity, {}).values())
-                sv = list(singles.values())
-                if qfct.arity == 2 and len(sv) <= 12:
-                    cands = cands + list(itertools.product(sv, repeat=qfct.arity))
+                pats = infer_patterns(qfct)
+                cands = match_patterns(qfct, pats, idx, apps, by_arr, singles, priority=priority) if pats else None
+                if cands is None and not pats:
+                    # no trigger in the body (pure arithmetic fact): all index terms / hints
+                    if qfct.arity == 1:
+                        cands = [(t,) for t in singles.values()]
+                    else:
+                        cands = list(idx.get(qfct.arity, {}).values())
+                        sv = list(singles.values())
+                        if qfct.arity == 2 and len(sv) <= 12:
+                            cands = cands + list(itertools.product(sv, repeat=qfct.arity))
+                elif cands is None:
+                    cands = []
+                if qfct.arity == 1:
+                    # skolem constants and explicit hints are always tried
+                    cands = list(cands) + [(t,) for t in extra_terms]
             for tup in cands:
                 key = (id(qfct),) + tuple(t.get_id() for t in tup)
                 if key in seen_inst:
@@ -396,6 +575,25 @@ def instantiate(ground, qfacts, registry, rounds=2, hints=(), max_insts=6000):
 # --------------------------------------------------------------------------
 # solving
 # --------------------------------------------------------------------------
+
+def has_sum(e, registry):
+    for x in _walk([e]):
+        if z3.is_app(x) and x.decl().kind() == z3.Z3_OP_UNINTERPRETED and x.decl().name() in registry.sums:
+            return True
+    return False
+
+
+def simplify_all(asserts):
+    out = []
+    seen = set()
+    for x in asserts:
+        y = z3.simplify(x, expand_select_store=True)
+        if z3.is_true(y) or y.get_id() in seen:
+            continue
+        seen.add(y.get_id())
+        out.append(y)
+    return out
+
 
 def smt2_of(assertions, logic=None):
     s = z3.Solver()
